@@ -32,7 +32,9 @@ class Env:
         os.makedirs(self.home)
         self.binary = binary or C.GIT_AI_BIN
         self.keep = keep
-        self.clock = 1700000000
+        # commit dates must be later than blame.rs OLDEST_AI_BLAME_DATE (2025-07-04), which git-ai passes
+        # to `git blame --since`; older dates would make every commit a blame boundary
+        self.clock = 1760000000
         patch = {"exclude_prompts_in_repositories": [], "prompt_storage": prompt_storage,
                  "telemetry_oss_disabled": True, "disable_version_checks": True, "disable_auto_updates": True}
         if config_patch:
